@@ -1,3 +1,177 @@
-/- C19: property theorems (stub — not built yet) -/
+import RSVerif.Model.LogFlow
+import RSVerif.Lemmas.LogFlow
+import RSVerif.Generated.LogFlow
+import RSVerif.Spec.LogFlow
+/-
+C19 — Configured passwords never appear in logs or status output.
+
+The statement is non-interference of everything the tool prints or serves with respect to the
+configured passwords. It is proved over the flow/type abstraction of the program that go/logflow
+regenerates from the CURRENT sources on every run (`Generated.LogFlow`):
+
+ * `closure_cert`        the generated candidate sets contain the sources (the six password fields and
+                         every password-named location) and are closed under every extracted edge;
+ * `no_sink_tainted`     no argument of any output site has a static type that reaches a tainted field
+                         or reads a tainted location;
+ * `no_sink_reachable`   hence (hand-proved `closed_sound`) NO derivation of the least taint relation of
+                         the extracted graph ends in an output argument — a statement about the graph
+                         alone, not about the candidate;
+ * `safe_options_masks`  every secret field of `Configuration` is overwritten with a literal by
+                         `GetSafeOptions`; `mask_rows_derived` re-checks the extractor's derived row;
+ * `render_noninterference`, `masked_render_noninterference` (hand-proved, all password strings): in the
+                         formatting model the output for a clean value, resp. for a masked copy, is the
+                         same for any two values that differ only inside secret fields.
+
+TRUSTED (see design_notes/C19.md): the extractor's edge rules. Reflection/interface dispatch is
+over-approximated by static type; formatting verbs are not interpreted (any verb may print everything).
+-/
 namespace RSVerif.Properties.C19
+open RSVerif.LogFlow RSVerif.Generated.LogFlow RSVerif.Spec.LogFlow
+
+/-! ### 1. The certificate (finite tables, re-checked by the kernel against the current source) -/
+
+/-- the sources are in the candidate set and it is closed under all value-flow edges, hand-over
+    edges and type rows -/
+theorem closure_cert : graph.closed tainted taintedTypes = true := by decide +kernel
+
+/-- the six configured fields and all password-named locations are tainted -/
+theorem sources_tainted : ∀ l ∈ secretFields ++ nameSources, tainted.testBit l = true := by
+  decide +kernel
+
+/-- no output site has a tainted argument -/
+theorem no_sink_tainted : ∀ c ∈ siteChunks, ∀ s ∈ c, siteClean tainted taintedTypes s = true := by
+  decide +kernel
+
+/-- the tables are what the extractor counted (guards against an empty/truncated table) -/
+theorem table_sizes :
+    edges.length = numEdges ∧ typeEdges.length = numTypeEdges ∧ sites.length = numSites ∧
+    secretFields.length = 6 := by decide +kernel
+
+/-- FULL STATEMENT over the extracted graph: nothing that is derivable from the password sources by the
+    extracted rules — in any number of steps — is an argument of an output site. -/
+theorem no_sink_reachable : ∀ s ∈ sites, ∀ a ∈ s.args, ¬ a.possiblySecret graph := by
+  intro s hs a ha
+  apply not_possiblySecret_of_clean graph tainted taintedTypes closure_cert
+  simp only [sites, List.mem_flatten] at hs
+  obtain ⟨c, hc, hsc⟩ := hs
+  have := no_sink_tainted c hc s hsc
+  simp only [siteClean, List.all_eq_true] at this
+  exact this a ha
+
+/-- every derivable location / row / type is in the candidate (the candidate over-approximates) -/
+theorem candidate_sound : ∀ f, Derivable graph f → f.holds tainted taintedTypes :=
+  closed_sound graph tainted taintedTypes closure_cert
+
+-- non-vacuity: the six fields really are derivable, and so is `*SyncNode` (which is what D20 logged)
+example : Derivable graph (.loc 0) := .source (by decide +kernel)
+
+/-! ### 2. GetSafeOptions masks every secret field of the configuration -/
+
+/-- `secretFields Configuration ⊆ masked` -/
+theorem safe_options_masks :
+    ∀ f ∈ fieldsOfRow configurationType, f.loc ∈ secretFields → f.loc ∈ maskedFields := by
+  decide +kernel
+
+/-- … and this is not vacuous: the configuration row exists and has exactly four secret fields -/
+theorem configuration_secret_fields :
+    configurationSecrets.length = 4 := by
+  decide +kernel
+
+/-- the row the extractor uses for a value returned by a masking function is the original row minus
+    exactly the fields that function overwrites with a literal -/
+theorem mask_rows_derived :
+    ∀ r ∈ maskRows, fieldsOfRow r.2.1 = (fieldsOfRow r.1).filter (fun f => !r.2.2.contains f.loc) := by
+  decide +kernel
+
+/-- what `GetSafeOptions` returns cannot reach a tainted field -/
+theorem safe_options_clean : (GoType.named safeOptionsType).reaches taintedTypes = false := by
+  decide +kernel
+
+/-- whereas the raw configuration and a sync-node descriptor do (so the check is not trivially true) -/
+theorem raw_configuration_tainted : (GoType.named configurationType).reaches taintedTypes = true := by
+  decide +kernel
+theorem sync_node_tainted : (GoType.ptr (.named syncNodeType)).reaches taintedTypes = true := by
+  decide +kernel
+
+/-! ### 3. D20 — the pinned tree logged the descriptor (fixed by fixes/C19-syncnode-log.patch) -/
+
+/-- the pinned statement `log.Infof("Starting sync for node: %v", ds.node)` (dbSyncer.go:118): its
+    argument has type `*slot.SyncNode`; such a site is not clean. With that line present
+    `no_sink_tainted` does not check. -/
+theorem counterexample_pinned_syncnode_log : siteClean tainted taintedTypes pinnedSyncNodeLog = false := by
+  decide +kernel
+
+/-- … and in the formatting model `%v` of a descriptor does depend on the passwords -/
+theorem counterexample_render_syncnode :
+    GoVal.lowEq [4, 5] (nodeWith "a" "b") (nodeWith "c" "d") ∧
+    sprintf "Starting sync for node: %v" [nodeWith "a" "b"] ≠ sprintf "Starting sync for node: %v" [nodeWith "c" "d"] := by
+  refine ⟨by simp [nodeWith, GoVal.lowEq, GoFields.lowEq, GoVals.lowEq], by decide +kernel⟩
+
+/-! ### 4. Non-interference of the formatting model (hand-proved; all values, all password strings) -/
+
+/-- A value none of whose reachable fields is secret renders the same as any value that differs from it
+    only inside secret fields — under every verb, for all contents of those fields. -/
+theorem render_noninterference (S : List Nat) (f : Verb) (v w : GoVal)
+    (hclean : v.clean S = true) (hlow : GoVal.lowEq S v w) : v.render f = w.render f := by
+  have h := GoVal.mask_eq_of_lowEq S [] v w hlow (GoVal.covered_of_clean S v hclean)
+  rw [GoVal.mask_nil, GoVal.mask_nil] at h
+  rw [h]
+
+/-- The same for whole formatted lines. -/
+theorem sprintf_noninterference (S : List Nat) (fmt : String) (v w : GoVal)
+    (hclean : v.clean S = true) (hlow : GoVal.lowEq S v w) : sprintf fmt [v] = sprintf fmt [w] := by
+  have h := GoVal.mask_eq_of_lowEq S [] v w hlow (GoVal.covered_of_clean S v hclean)
+  rw [GoVal.mask_nil, GoVal.mask_nil] at h
+  rw [h]
+
+/-- A masked copy (`GetSafeOptions`) renders the same for any two configurations that differ only in
+    secret fields, provided every secret field occurring in the value is among the masked ones. -/
+theorem masked_render_noninterference (S M : List Nat) (f : Verb) (v w : GoVal)
+    (hcov : v.covered S M = true) (hlow : GoVal.lowEq S v w) :
+    (v.mask M).render f = (w.mask M).render f := by
+  rw [GoVal.mask_eq_of_lowEq S M v w hlow hcov]
+
+/-- the list of tainted locations used below is exactly covered by the bit mask -/
+theorem tainted_locs_cover : ∀ l ∈ taintedLocs, tainted.testBit l = true := by decide +kernel
+theorem tainted_locs_complete : (List.range numLocs).all (fun l => !tainted.testBit l || taintedLocs.contains l) = true := by
+  decide +kernel
+
+/-- END-TO-END (current tree): for every argument of every output site, any two run-time values of the
+    argument's static type that differ only inside tainted fields render identically under every verb —
+    whatever the passwords are. (Interface-typed positions are assumed to hold clean values: that is the
+    location half of `no_sink_tainted`, whose connection to Go semantics is the trusted extractor.) -/
+theorem output_noninterference :
+    ∀ s ∈ sites, ∀ a ∈ s.args, ∀ (f : Verb) (v w : GoVal),
+      HasType typeDefs taintedLocs a.ty v → GoVal.lowEq taintedLocs v w → v.render f = w.render f := by
+  intro s hs a ha f v w hty hlow
+  have hclean : argClean tainted taintedTypes a = true := by
+    simp only [sites, List.mem_flatten] at hs
+    obtain ⟨c, hc, hsc⟩ := hs
+    have := no_sink_tainted c hc s hsc
+    simp only [siteClean, List.all_eq_true] at this
+    exact this a ha
+  simp only [argClean, Bool.and_eq_true, Bool.not_eq_true'] at hclean
+  have hS : ∀ l, tainted.testBit l = false → taintedLocs.contains l = false := by
+    intro l hl
+    cases hc : taintedLocs.contains l with
+    | false => rfl
+    | true =>
+      have := tainted_locs_cover l (by simpa using hc)
+      rw [hl] at this; cases this
+  have hdefs : ∀ d ∈ typeDefs, typeDefClosed tainted taintedTypes d = true := by
+    have := closure_cert
+    simp only [Graph.closed, Bool.and_eq_true, List.all_eq_true] at this
+    exact this.2
+  exact render_noninterference taintedLocs f v w (HasType.clean hS hdefs hty hclean.1) hlow
+
+-- non-vacuity: a configuration-like value with two different password pairs; masked JSON is identical
+-- and shows the mask, unmasked JSON differs
+example : ((confWith "p%1\"" "q").mask [0, 1, 2, 3]).render .json =
+    "{\"Id\":\"shake\",\"SourcePasswordRaw\":\"***\",\"TargetPasswordRaw\":\"***\",\"Parallel\":32}" := by
+  decide +kernel
+example : (confWith "a" "b").covered [0, 1, 2, 3, 4, 5] [0, 1, 2, 3] = true := by decide
+example : GoVal.lowEq [0, 1, 2, 3, 4, 5] (confWith "a" "b") (confWith "c" "d") := by
+  simp [confWith, GoVal.lowEq, GoFields.lowEq]
+example : (confWith "a" "b").render .json ≠ (confWith "c" "d").render .json := by decide +kernel
+
 end RSVerif.Properties.C19
